@@ -255,6 +255,25 @@ def run(case, prop):
         ev = ['EXC ' + type(e).__name__]
         if prop == 'C16': viol.append('raised| scan raised %s' % type(e).__name__)
     out = 'E ' + ' '.join(ev)
+    # attributes(src): the string read as a bare attribute list (what the attribute parser does on half-typed tags)
+    from emmet.html_matcher.attributes import attributes
+    try:
+        al = attributes(s)
+        out += ' | A ' + ' '.join('%d:%d:%s' % (a.name_start, a.name_end, '-' if a.value is None else '%d:%d' % (a.value_start, a.value_end)) for a in al)
+        if prop == 'C16':
+            prev_end = 0
+            for a in al:
+                ok = 0 <= a.name_start < a.name_end <= len(s) and a.name == s[a.name_start:a.name_end] and a.name_start >= prev_end
+                prev_end = a.name_end
+                if a.value is not None:
+                    ok = ok and a.name_end < a.value_start <= a.value_end <= len(s) and a.value == s[a.value_start:a.value_end]
+                    prev_end = a.value_end
+                if not ok:
+                    viol.append('attribute-range| attributes(%r): attribute %r name [%r,%r) value %r [%r,%r) is not an ordered in-range slice' % (s, a.name, a.name_start, a.name_end, a.value, a.value_start, a.value_end)); break
+    except RecursionError: raise
+    except Exception as e:
+        out += ' | A EXC ' + type(e).__name__
+        if prop == 'C16': viol.append('raised| attributes(%r) raised %s' % (s, type(e).__name__))
     if prop == 'C16': viol += oracle_events(s, evl)
     tags['events'] = len(evl)
     for xml in (False, True):
